@@ -54,7 +54,14 @@ func (w *World) runTx(tx *Tx) (events []*Step, err error) {
 	w.statedb.Finalize(false)
 	pre := w.preOf()
 	sumBefore := w.universeTotal()
-	trieBefore, _ := w.trieTotal()
+	trieBefore := sumBefore
+	preNeg := false
+	for _, v := range pre.Bal {
+		preNeg = preNeg || v < 0
+	}
+	if !preNeg {
+		trieBefore, _ = w.trieTotal()
+	}
 	if trieBefore.Cmp(sumBefore) != 0 {
 		return nil, fmt.Errorf("harness: trie total %v differs from universe total %v before the transaction", trieBefore, sumBefore)
 	}
@@ -201,8 +208,17 @@ func (w *World) runTx(tx *Tx) (events []*Step, err error) {
 
 	// native conservation (math/big), independent of the specification
 	sumAfter := w.universeTotal()
-	trieAfter, _ := w.trieTotal()
 	nat := "ok"
+	negative := ""
+	for _, n := range w.names {
+		if post.Bal[n] < 0 {
+			negative = n
+		}
+	}
+	trieAfter := sumAfter
+	if negative == "" {
+		trieAfter, _ = w.trieTotal() // (the trie encoder panics on a negative balance)
+	}
 	credits := new(big.Int).Mul(w.rent, big.NewInt(int64(tr.nSD)))
 	if tx.Kind == "sdata" {
 		credits.Add(credits, w.rent)
@@ -232,10 +248,8 @@ func (w *World) runTx(tx *Tx) (events []*Step, err error) {
 	case tx.Kind != "inbound" && used > uint64(tx.G):
 		nat = fmt.Sprintf("gasUsed %d above the limit %d", used, tx.G)
 	}
-	for _, n := range w.names {
-		if post.Bal[n] < 0 {
-			nat = "negative-balance: " + n
-		}
+	if negative != "" {
+		nat = "negative-balance: " + negative
 	}
 
 	switch tx.Kind {
